@@ -153,6 +153,77 @@ def _check_slice_run_falsy(res, args, n, shift):
     return case
 
 
+class _Hinted(object):
+    """An iterator over *xs* whose __length_hint__ is an estimate (PEP 424 allows it to be wrong)."""
+
+    def __init__(self, xs, hint):
+        self._it = iter(xs)
+        self._hint = hint
+
+    def __iter__(self):
+        return self
+
+    def __next__(self):
+        return next(self._it)
+
+    def __length_hint__(self):
+        return self._hint
+
+
+def check_slice_run_hinted(res, args, n, hint):
+    xs = _flow(n)
+    expected = xs[slice(*args)]
+    case = {"law": "slice-run-hinted", "args": list(args), "n": n, "hint": hint}
+    try:
+        got = list(lena.flow.Slice(*args).run(_Hinted(xs, hint)))
+        ok = _same(got, expected)
+        observed = [v[0] for v in got]
+    except Exception as e:
+        ok, observed = False, "raised " + type(e).__name__
+    s = slice(*args)
+    res.case(nontrivial=0 < len(expected) < n, outcome=("hinted", len(expected)))
+    if not ok:
+        res.violation(case, observed, [v[0] for v in expected],
+                      {"law": "slice-run", "start": _sign(s.start), "stop": _sign(s.stop),
+                       "step_gt_1": bool(s.step and s.step > 1), "flow": "iterator with an inexact length hint"})
+    return case
+
+
+LONG = 300      # beyond the positions whose int objects CPython shares (-5..256)
+
+
+def check_long(res, args):
+    """One long flow through run and (non-negative arguments) through fill_into."""
+    xs = _flow(LONG)
+    expected = xs[slice(*args)]
+    s = slice(*args)
+    case = {"law": "slice-long", "args": list(args), "n": LONG}
+    cause = {"law": "slice-long", "start": _sign(s.start), "stop": _sign(s.stop),
+             "step_gt_1": bool(s.step and s.step > 1)}
+    try:
+        got = list(lena.flow.Slice(*args).run(iter(xs)))
+        ok, observed = _same(got, expected), "run gave %d values" % len(got)
+    except Exception as e:
+        ok, observed = False, "run raised " + type(e).__name__
+    if ok and all(a is None or a >= 0 for a in (s.start, s.stop)):
+        sink = _Collect()
+        try:
+            el = lena.flow.Slice(*args)
+            for v in xs:
+                try:
+                    el.fill_into(sink, v)
+                except lena.core.LenaStopFill:
+                    break
+            ok, observed = _same(sink.got, expected), "fill_into filled %d values" % len(sink.got)
+            cause["route"] = "fill_into"
+        except Exception as e:
+            ok, observed = False, "fill_into raised " + type(e).__name__
+    res.case(nontrivial=0 < len(expected) < LONG, outcome=("long", len(expected)))
+    if not ok:
+        res.violation(case, observed, "%d values" % len(expected), cause)
+    return case
+
+
 def check_bad_step(res, args):
     case = {"law": "slice-badstep", "args": list(args)}
     try:
@@ -360,6 +431,14 @@ def run_shard(p, tier):
                         if 1 <= n <= d["LF"] and args == (start, stop, step):
                             for shift in range(len(FALSY)):
                                 check_slice_run(res, args, n, falsy_shift=shift)
+                            for hint in sorted(set([0, n // 2, n - 1, n + 2])):
+                                if hint != n and hint >= 0:
+                                    check_slice_run_hinted(res, args, n, hint)
+                # one long flow: this stop, and for stop None also far stops
+                for big in ((None, 260, -260, 290, -3) if stop is None else (stop,)):
+                    check_long(res, (start, big, step))
+                if start is None and stop is not None and stop >= 0:
+                    check_long(res, (250 + stop, None, step))
                 res.sample(case, 2)
     elif p["kind"] == "badstep":
         for start in rng:
@@ -386,6 +465,10 @@ def replay(case):
     law = case.get("law")
     if law == "slice-run":
         check_slice_run(res, tuple(case["args"]), case["n"], case.get("falsy_shift"))
+    elif law == "slice-run-hinted":
+        check_slice_run_hinted(res, tuple(case["args"]), case["n"], case["hint"])
+    elif law == "slice-long":
+        check_long(res, tuple(case["args"]))
     elif law == "slice-badstep":
         check_bad_step(res, tuple(case["args"]))
     elif law == "slice-fill-into":
